@@ -46,7 +46,7 @@ PROPS = {
         rule="random bodies with plans over all seven modes plus function entry/exit, through all four API paths, occasionally with an unused import deleted before encoding; every probe "
              "carries unique marker constants; non-trivial = at least one special-mode or function-level injection",
         level_text="Proof on the mirror: rejection at the call for inapplicable instructions, acceptance otherwise, the 'special' report of add_instr (all operators, modes, flags), and "
-                   "C22_no_special_probe_is_lost: for every body and every plan without replacements outside the D15-D18 shapes, the block-entry / block-exit / semantic-after code of every construct and the function entry / exit code occur "
+                   "C22_no_special_probe_is_lost: for every body and every plan without replacements outside the D16-D18 shapes (semantic-after on branch instructions), the block-entry / block-exit / semantic-after code of every construct and the function entry / exit code occur "
                    "in the emitted body (Proofs/NoLoss.v over the flattening theorem). With replacements and on the real output the statement (every accepted special injection outside a removed region is reflected, no BUG log line) "
                    "is decided per case in Coq. Known class D16 (D19 and D20 were repaired by fix: commits).",
         level_note="Trusted: Coq kernel + vm_compute; the harness (markers, log capture). Modelled, not verified: the injection paths, resolve_special_instrumentation, emission.",
